@@ -467,6 +467,56 @@ func (c *Ctx) rulesC09(la *LockAnalysis) {
 		c.undecided(fmt.Sprintf("C09.fb: only %d clockUpdate call sites found", nfb))
 	}
 
+	// C09.tick / C09.hs
+	c.rule("C09.tick", "Server.RpcReadyState starts the push ticker unless PushInterval is exactly zero: the ticker is also the only thing that re-sends a diff whose immediate push was skipped (export lock busy)")
+	c.rule("C09.hs", "Client.HandshakeDoneState finalises the mirror through clockSet on every handshake (no condition): after a reconnect the active-state list, waiters and handlers are refreshed, not only the raw ticks")
+	fPI := c.field(pr, "Server", "PushInterval")
+	if f := c.fn(pr + ":Server.RpcReadyState"); f != nil && fPI != nil {
+		var tick ssa.Instruction
+		for _, b := range f.Blocks {
+			for _, ins := range b.Instrs {
+				if call, ok := ins.(*ssa.Call); ok && calleeName(&call.Call) == "NewTicker" {
+					tick = call
+				}
+			}
+		}
+		if tick == nil {
+			c.fail("C09.tick", "RpcReadyState creates the push ticker", f.Pos(), "no time.NewTicker call")
+		} else {
+			good := true
+			why := ""
+			for _, g := range guardsOf(tick.Block()) {
+				if !mentionsAtomicLoad(g.Cond, fPI) {
+					continue
+				}
+				v, _ := stripNot(g.Cond)
+				bo, ok := v.(*ssa.BinOp)
+				if !ok {
+					good, why = false, render(g.Cond)
+					continue
+				}
+				zero := false
+				for _, side := range []ssa.Value{bo.X, bo.Y} {
+					if n, ok := constInt(side); ok && n == 0 {
+						zero = true
+					}
+				}
+				if !zero {
+					good, why = false, render(g.Cond)
+				}
+			}
+			c.check(good, "C09.tick", "the ticker is skipped only for PushInterval == 0", tick.Pos(), "PushInterval is compared with a non-zero threshold ("+why+"): small positive intervals get no ticker and a skipped trailing diff is never delivered")
+		}
+	}
+	if f := c.fn(pr + ":Client.HandshakeDoneState"); f != nil {
+		cs := c.sitesIn(f, pr+":Client.clockSet")
+		c.check(len(cs) >= 1, "C09.hs", "HandshakeDoneState calls clockSet", f.Pos(), "the mirror is not finalised after a handshake")
+		for i, s := range cs {
+			gs := guardsOf(s.Block())
+			c.check(len(gs) == 0, "C09.hs", "clockSet runs on every handshake"+nth(i), s.Pos(), fmt.Sprintf("clockSet is conditional (%v): a re-handshake after a dropped connection leaves the mirror's activity stale", guardStrings(gs)))
+		}
+	}
+
 	// C09.lock
 	const lkClock = "pkg/rpc.NetworkMachine.clockMx"
 	for _, name := range []string{"Client.clockUpdate", "Client.clockSet"} {
